@@ -818,6 +818,8 @@ class Checker:
                     allowed.discard('application/xml')
                     allowed.add('empty')
         rec.count('negotiation.strong' if allowed is not None else 'negotiation.weak')
+        if allowed is not None and accept is not None and accept != accept.lower():
+            rec.count('negotiation.mixed_case_decided')
         observed = 'empty' if body == b'' else ctype
         if allowed is not None and len(allowed) > 1:
             rec.count('negotiation.tie_or_suffix')
@@ -1171,9 +1173,17 @@ def rand_behaviour(rng):
     return ['raise_status', rand_status_spec(rng)]
 
 
+MIXED_CASE_SUFFIX = ['application/vnd.acme.v2+JSON', 'Application/Atom+XML', 'application/vnd.c04+Json',
+                     'APPLICATION/VND.C04+JSON;q=0.5', 'application/vnd.c04+XML;q=0.9, image/png',
+                     'text/html, Application/Problem+Json;q=0.8', 'IMAGE/SVG+XML',
+                     'application/vnd.c04+JSON, application/vnd.c04+xml', 'image/png;Q=0.9, application/hal+JSON',
+                     'Application/Vnd.C04+Xml;q=0.001, text/plain', 'application/vnd.c04+JSON;q=0.3, Image/PNG',
+                     'text/html;q=0.9,application/xhtml+XML;q=0.8']
 ACCEPT_TYPES = ['application/json', 'text/xml', 'application/xml', CUSTOM_TYPE, '*/*', 'application/*', 'text/*',
                 'image/png', 'text/html', 'text/plain', 'application/vnd.c04+json', 'application/vnd.c04+xml',
-                'application/yaml', 'application/problem+json', 'image/svg+xml']
+                'application/yaml', 'application/problem+json', 'image/svg+xml',
+                'application/vnd.acme.v2+JSON', 'Application/Atom+XML', 'application/vnd.c04+Json', 'IMAGE/SVG+XML',
+                'Text/Html', 'application/hal+JSON']
 QVALS = ['', '', '', ';q=0', ';q=0.0', ';q=0.1', ';q=0.5', ';q=0.9', ';q=1', ';q=1.0', ';q=0.001', ';q=0.999',
          ';q=1.000', '; q=0.3', ' ;q=0.7']
 WEAK_ACCEPTS = ['', 'garbage', '*', 'application/json;q=2', 'text/xml;q=abc', ',', 'a/b;q="0.5"',
@@ -1188,7 +1198,9 @@ def rand_accept(rng):
         return None
     if r < 0.2:
         return rng.choice(WEAK_ACCEPTS)
-    if r < 0.24:
+    if r < 0.23:
+        return rng.choice(MIXED_CASE_SUFFIX)
+    if r < 0.27:
         return rng.choice([M.URLENC, M.MULTIPART, M.URLENC + ';q=0.9, application/json;q=0.1',
                            'multipart/form-data, application/json;q=0.5', 'application/*;q=0.9, application/json;q=0.1'])
     n = rng.choice([1, 1, 2, 2, 3, 4, 6])
@@ -1537,7 +1549,7 @@ E3_ACCEPTS = [
     'text/xml;q=0.9,\tapplication/json;q=0.95', 'text/html, application/xhtml+xml, application/xml;q=0.9, */*;q=0.8',
     'text/html,application/xhtml+xml,image/webp;q=0.9', M.URLENC, M.MULTIPART,
     'application/*;q=0.9, application/json;q=0.1', 'multipart/form-data;q=0.9, application/json',
-] + WEAK_ACCEPTS
+] + MIXED_CASE_SUFFIX + WEAK_ACCEPTS
 
 E3_CFGS = [{'xml': x, 'custom_media': c, 'json_handler': j, 'xml_handler': h, 'independent': True}
            for x in (True, False) for c in (False, True) for j in ('default', 'custom', 'removed')
@@ -1676,7 +1688,7 @@ def run(rec):
         'req.multi_raise': 1200, 'req.body_set_before_raise': 3300,
         'site.responder': 9000, 'site.noroute': 600, 'site.meta': 190, 'site.nomethod': 190, 'site.render': 210,
         'stack.wsgi': 220, 'stack.asgi': 220, 'random.programs': 40,
-        'vary.error_defines_members': 500, 'vary.set_before_raise': 550,
+        'vary.error_defines_members': 500, 'vary.set_before_raise': 550, 'negotiation.mixed_case_decided': 300,
     }
     for s_ in SITES_REQ + SITES_MID + ['sink'] + SITES_RESP:
         if s_ != 'responder':
